@@ -544,6 +544,56 @@ pub fn random_run<W: Write>(tr: &mut Trace<W>, cfg: Cfg, prof: &Profile, seed: u
                 tr.step(&mut sim, "CliFrame", json!({"c": c, "dt": 0}));
                 continue;
             }
+            if rng.chance(1, 12) {
+                // a mapped event / a trigger aimed at an entity the client will not be able to resolve when the
+                // event's tick arrives (despawned in the same window, or never replicated): it must be withheld
+                let t = *rng.pick(&["STrig", "SMap", "SMTrig"]);
+                let x = rng.pick(&ents).clone();
+                if sim.op_enabled("Spawn", &json!({"e": x})) {
+                    tr.step(&mut sim, "Spawn", json!({"e": x, "comps": ["A"], "repl": rng.chance(1, 2)}));
+                }
+                if sim.op_enabled("Despawn", &json!({"e": x})) {
+                    tr.step(&mut sim, "EmitS", json!({"t": t, "id": next_id, "mode": "all", "to": "none", "e": x}));
+                    if rng.chance(2, 3) {
+                        tr.step(&mut sim, "Despawn", json!({"e": x}));
+                    }
+                    tr.step(&mut sim, "SrvFrame", json!({"tick": true, "dt": 0}));
+                    tr.sync(&mut sim);
+                    continue;
+                }
+            }
+            if prof.sess && rng.chance(1, 12) {
+                // a server event is queued on the client (it overtook its update message) when the session ends;
+                // in the next session an event is queued again: only the new one may come out
+                let ci = sim.ci(&c);
+                if sim.clients[ci].entity.is_some() {
+                    for round in 0..2 {
+                        let x = ents[rng.below(ents.len())].clone();
+                        if sim.op_enabled("Spawn", &json!({"e": x})) {
+                            tr.step(&mut sim, "Spawn", json!({"e": x, "comps": ["A"], "repl": true}));
+                        } else if sim.op_enabled("Insert", &json!({"e": x, "k": "B"})) {
+                            tr.step(&mut sim, "Insert", json!({"e": x, "k": "B"}));
+                        } else if sim.op_enabled("Remove", &json!({"e": x, "k": "B"})) {
+                            tr.step(&mut sim, "Remove", json!({"e": x, "k": "B"}));
+                        }
+                        next_id += 1;
+                        tr.step(&mut sim, "EmitS", json!({"t": "SOrd", "id": next_id, "mode": "all", "to": "none", "e": "none"}));
+                        tr.step(&mut sim, "SrvFrame", json!({"tick": true, "dt": 0}));
+                        while sim.channel_len(&c, "s2c", sim.sev_ch("SOrd")) > 0 {
+                            tr.step(&mut sim, "DeliverEvS", json!({"c": c, "t": "SOrd", "pos": 0}));
+                        }
+                        tr.step(&mut sim, "CliFrame", json!({"c": c, "dt": 0}));
+                        if round == 0 {
+                            tr.step(&mut sim, "Disconnect", json!({"c": c}));
+                            tr.step(&mut sim, "CliFrame", json!({"c": c, "dt": 0}));
+                            tr.step(&mut sim, "SrvFrame", json!({"tick": false, "dt": 0}));
+                            tr.step(&mut sim, "Connect", json!({"c": c}));
+                        }
+                    }
+                    tr.sync(&mut sim);
+                    continue;
+                }
+            }
             if rng.chance(1, 10) {
                 // unreliable channels: several events pile up, arrive out of order, one is lost
                 let server_side = rng.chance(1, 2);
@@ -583,7 +633,7 @@ pub fn random_run<W: Write>(tr: &mut Trace<W>, cfg: Cfg, prof: &Profile, seed: u
                         2 => ("except", c.clone()),
                         _ => ("direct", c.clone()),
                     };
-                    let e = if t == "SMap" && e == "none" { ents[0].clone() } else if t == "SOrd" || t == "SInd" || t == "SUnr" { "none".into() } else { e };
+                    let e = if (t == "SMap" || t == "SMTrig") && e == "none" { ents[0].clone() } else if t == "SOrd" || t == "SInd" || t == "SUnr" { "none".into() } else { e };
                     tr.step(&mut sim, "EmitS", json!({"t": t, "id": next_id, "mode": mode, "to": to, "e": e}));
                 }
                 4..=5 => {
